@@ -115,18 +115,38 @@ type level struct {
 }
 
 type chain struct {
-	shape  string
-	levels []*level // levels[0] = base
+	// superForm: how a definition "with Super" spells it: 0 <{{ block.Super }}>, 1 twice in one definition,
+	// 2 tested in an if before it is printed
+	superForm int
+	shape     string
+	levels    []*level // levels[0] = base
 }
 
-func (d *def) src(name string, lv int, nestedBody func(string) string) string {
+func superSrc(form int) string {
+	switch form {
+	case 1:
+		return "<{{ block.Super }}+{{ block.Super }}>"
+	case 2:
+		return "{% if block.Super %}<{{ block.Super }}>{% else %}<>{% endif %}"
+	}
+	return "<{{ block.Super }}>"
+}
+
+func superRef(form int, parent string) string {
+	if form == 1 {
+		return "<" + parent + "+" + parent + ">"
+	}
+	return "<" + parent + ">"
+}
+
+func (d *def) src(name string, lv int, form int, nestedBody func(string) string) string {
 	var b strings.Builder
 	fmt.Fprintf(&b, "{%% block %s %%}%s%d", name, name, lv)
 	if d.loopI {
 		b.WriteString("{{ i }}")
 	}
 	if d.super {
-		b.WriteString("<{{ block.Super }}>")
+		b.WriteString(superSrc(form))
 	}
 	if d.nested != "" {
 		b.WriteString("(" + nestedBody(d.nested) + ")")
@@ -148,7 +168,7 @@ func (c *chain) files() map[string]string {
 		}
 		var defSrc func(name string) string
 		defSrc = func(name string) string {
-			return L.defs[name].src(name, lv, defSrc)
+			return L.defs[name].src(name, lv, c.superForm, defSrc)
 		}
 		var b strings.Builder
 		if lv == 0 {
@@ -220,11 +240,11 @@ func (c *chain) render(j int) string {
 			b.WriteString(i)
 		}
 		if d.super {
-			b.WriteString("<")
+			parent := ""
 			if k > 0 {
-				b.WriteString(renderBlock(name, k-1, i))
+				parent = renderBlock(name, k-1, i)
 			}
-			b.WriteString(">")
+			b.WriteString(superRef(c.superForm, parent))
 		}
 		if d.nested != "" {
 			b.WriteString("(" + renderBlock(d.nested, -1, i) + ")")
@@ -268,7 +288,7 @@ func (c *chain) renderO(j int, renderBlock func(string, int, string) string) str
 		d := c.levels[lv].defs["o"]
 		s := fmt.Sprintf("o%d", lv)
 		if d.super {
-			s += "<" + rec(k-1) + ">"
+			s += superRef(c.superForm, rec(k-1))
 		}
 		return s
 	}
@@ -281,8 +301,12 @@ func run(r *eng.Runner) {
 	if !r.Quick() {
 		wide, maxChildren = 3, 5
 	}
+	formDepth := 3 // chains of up to this many templates are also run with block.Super used twice / tested in an if
+	if !r.Quick() {
+		formDepth = 4
+	}
 	shapes := []string{"top", "nested", "if", "if-false", "for"}
-	r.Group("chains", "c10.case", fmt.Sprintf("all inheritance chains with 0..%d children (every option for every block up to depth %d, deeper levels vary block a and nested blocks only) over 5 base shapes (block at top level, nested in a block, in a true/false if branch, in a for body); per level every known block is absent / redefined / redefined with block.Super, block a may introduce a new nested block; junk outside blocks; every template of the chain rendered, the base again after its children were compiled", maxChildren, wide))
+	r.Group("chains", "c10.case", fmt.Sprintf("all inheritance chains with 0..%d children (every option for every block up to depth %d, deeper levels vary block a and nested blocks only) over 5 base shapes (block at top level, nested in a block, in a true/false if branch, in a for body); per level every known block is absent / redefined / redefined with block.Super (chains of <=%d templates also with Super printed twice in one definition and with Super tested by an if), block a may introduce a new nested block; junk outside blocks; every template of the chain rendered, the base again after its children were compiled", maxChildren, wide, formDepth))
 	type opt struct {
 		present, super bool
 		nested         bool
@@ -294,6 +318,7 @@ func run(r *eng.Runner) {
 			wide = 1 // the placement shapes differ in the base only: vary everything one level deep, then block a only
 		}
 		var rec func(c *chain, known []string)
+		var emitForm func(c *chain)
 		emit := func(c *chain) {
 			files := c.files()
 			n := len(c.levels)
@@ -308,7 +333,24 @@ func run(r *eng.Runner) {
 				renders = append(renders, Render{Name: fmt.Sprintf("/t%d", j), Want: eng.Q(c.render(j))})
 			}
 			r.Do(&Case{Files: files, Renders: renders, Label: shape})
+			// the same chain with the other spellings of Super (only where some definition uses it)
+			if c.superForm == 0 && n <= formDepth {
+				uses := false
+				for _, L := range c.levels {
+					for _, d := range L.defs {
+						uses = uses || d.super
+					}
+				}
+				if uses {
+					for form := 1; form <= 2; form++ {
+						c2 := *c
+						c2.superForm = form
+						emitForm(&c2)
+					}
+				}
+			}
 		}
+		emitForm = emit
 		rec = func(c *chain, known []string) {
 			emit(c)
 			if len(c.levels)-1 == maxChildren || r.Stopped() {
@@ -423,7 +465,7 @@ func init() {
 	eng.Register(&eng.Check{
 		ID:    "C10",
 		Title: "Inheritance: the most-derived block wins, Super reaches the parent",
-		Rule: "bounded-exhaustive: every inheritance chain up to the depth bound in which each level leaves each known block absent, redefines it, or redefines it with block.Super (block a may also introduce a new nested block that later levels may override), over five placements of the block in the base document, served from an in-memory loader; every template of the chain is rendered (leaf first, then each level, then the base again) and compared with the reference resolution (most-derived definition, Super = next less-derived, empty at the bottom, junk outside blocks ignored). Plus the invalid shapes, which must be compile errors. All cases non-trivial.",
+		Rule:  "bounded-exhaustive: every inheritance chain up to the depth bound in which each level leaves each known block absent, redefines it, or redefines it with block.Super (block a may also introduce a new nested block that later levels may override), over five placements of the block in the base document, served from an in-memory loader; every template of the chain is rendered (leaf first, then each level, then the base again) and compared with the reference resolution (most-derived definition, Super = next less-derived, empty at the bottom, junk outside blocks ignored). Plus the invalid shapes, which must be compile errors. All cases non-trivial.",
 		Assumptions: []string{
 			"reference resolution of DESIGN.md Appendix A.6; block.Super is written before a nested block inside a definition",
 		},
